@@ -528,6 +528,10 @@ func (m *Mirror) CheckReads() {
 			if !a.FirstUsage.Time.Equal(ra.FirstUsage) {
 				op := m.History[len(m.History)-1]
 				sig := "C18/first-usage-differs:after-" + op.Kind
+				if op.Kind == "save_acc_meta" && a.FirstUsage.Time.After(ra.FirstUsage) {
+					// metadata written at a time earlier than the account's (future-dated) first usage did not lower it
+					sig = "C18/first-usage-not-lowered-by-metadata-save"
+				}
 				if op.Kind == "revert" && a.FirstUsage.Time.After(ra.FirstUsage) {
 					// the revert transaction is dated earlier than the account's first usage and did not lower it
 					sig = "C18/first-usage-not-lowered-by-revert-transaction"
